@@ -66,3 +66,43 @@ func (v *VerifSocket) RecvReply() (batch []string, fds []int, err error) {
 }
 
 const VerifBufferSize = bufferSize
+
+// VerifNewHostEnv builds the host side of an environment around an existing socket, so that a test
+// can play the container peer (honest or not). Destroy must not be called on it (there is no process).
+func VerifNewHostEnv(s *unixsocket.Socket) Environment {
+	c := &container{
+		socket: newSocket(s),
+		recvCh: make(chan recvReply, 1),
+		sendCh: make(chan sendCmd, 1),
+		done:   make(chan struct{}),
+	}
+	go c.sendLoop()
+	go c.recvLoop()
+	return c
+}
+
+// VerifPeer is the container end of the protocol for a test that plays the container.
+type VerifPeer struct{ s *socket }
+
+func VerifNewPeer(s *unixsocket.Socket) *VerifPeer { return &VerifPeer{newSocket(s)} }
+
+// RecvOpen receives one command and returns its kind and the paths of an open command.
+func (p *VerifPeer) RecvOpen() (kind int, paths []string, err error) {
+	var c cmd
+	_, err = p.s.RecvMsg(&c)
+	for _, o := range c.OpenCmd {
+		paths = append(paths, o.Path)
+	}
+	return int(c.Cmd), paths, err
+}
+
+// Reply sends an arbitrary reply (possibly inconsistent) with descriptors attached.
+func (p *VerifPeer) Reply(batch []string, errMsg string, fds []int) error {
+	r := reply{BatchErrors: batch}
+	if errMsg != "" {
+		r.Error = &errorReply{Msg: errMsg}
+	}
+	return p.s.SendMsg(r, unixsocket.Msg{Fds: fds})
+}
+
+func (p *VerifPeer) Close() { p.s.Close() }
